@@ -15,3 +15,4 @@ import Woodpile.Proofs.IovecArena
 import Woodpile.Proofs.IovecHeap
 import Woodpile.Proofs.IovecFootprint
 import Woodpile.Proofs.IovecOpsCheck
+import Woodpile.Proofs.IovecPriv
